@@ -35,7 +35,7 @@ ASSUMPTIONS = [
     "reference model B1 in this file (DESIGN.md Appendix B1); names inside RDATA follow the zone's relativization",
     "content comparison uses the canonical view {owner: {(type, covers): (ttl, set of rdata wire against the origin)}}",
 ]
-REQUIRED = ["mon.op_in_txn", "mon.read_your_writes", "mon.commit_equals_model", "mon.abort_point", "mon.ended_refuses", "mon.readonly_refuses"]
+REQUIRED = ["mon.replacement_transactions", "mon.op_in_txn", "mon.read_your_writes", "mon.commit_equals_model", "mon.abort_point", "mon.ended_refuses", "mon.readonly_refuses"]
 BUDGET = {"quick": 45.0, "thorough": 480.0}
 
 FACTORIES = [("plain", dns.zone.Zone), ("versioned", dns.versioned.Zone), ("btree", dns.btreezone.Zone)]
@@ -420,8 +420,9 @@ def initial_model(env, mz):
     return m
 
 
-def run_sequence(ctx, env, zname, factory, relativize, mz, ops, abort_at=None, explicit_rollback=False):
-    """returns True if everything matched"""
+def run_sequence(ctx, env, zname, factory, relativize, mz, ops, abort_at=None, explicit_rollback=False, replacement=False):
+    """returns True if everything matched.  replacement: the transaction is opened with writer(True) (what a reload or an AXFR
+    uses): it starts from NOTHING, and what it holds at commit is the whole zone"""
     z = GZ.build_lib_zone(mz, relativize, zone_factory=factory)
     model = initial_model(env, mz)
     case = {"kind": "seq", "zone": zname, "relativize": relativize, "ops": [describe_op(o) for o in ops], "abort_at": abort_at, "zone_text": GZ.mz_to_text(mz)}
@@ -431,8 +432,13 @@ def run_sequence(ctx, env, zname, factory, relativize, mz, ops, abort_at=None, e
         ctx.violation(f"harness-initial-zone-differs-from-model:{tag}", "", case)
         return False
     committed_model = model.clone()
+    if replacement:
+        model = Model(mz.origin)
+        tag += ":replacement"
+        case["replacement"] = True
+        ctx.count("mon.replacement_transactions")
     try:
-        txn = z.writer()
+        txn = z.writer(True) if replacement else z.writer()
         try:
             with txn:
                 for i, op in enumerate(ops):
@@ -487,7 +493,7 @@ def run_sequence(ctx, env, zname, factory, relativize, mz, ops, abort_at=None, e
                         if rds is None or rds.ttl != ttl or frozenset(rd.to_digestable(env.lorigin) for rd in rds) != frozenset(items):
                             ctx.violation(f"get-differs-from-model:{tag}", f"after op {i}: {probe!r} {rdtype}", case)
                             return False
-                    if txn.changed() is False and got != committed_model.content():
+                    if not replacement and txn.changed() is False and got != committed_model.content():
                         ctx.violation(f"changed-false-although-content-changed:{tag}", f"after op {i}", case)
                         return False
                 else:
@@ -523,6 +529,9 @@ def run_sequence(ctx, env, zname, factory, relativize, mz, ops, abort_at=None, e
                 t2.add(env.lib_name(env.owners[0], "zone"), 300, env.lib_rd(env.val("A")))
         else:
             ctx.count("mon.commit_equals_model")
+            if replacement and not model.content():
+                # (a replacement transaction that stored nothing is ended as if rolled back: arguable either way, not judged)
+                return True
             if after[0] != model.content():
                 ctx.violation(f"committed-zone-differs-from-model:{tag}", diff(after[0], model.content()), case)
                 return False
@@ -573,6 +582,10 @@ def run(spec, ctx):
             ctx.sample({"ops": [describe_op(o) for o in ops], "origin": RN.to_text(mz.origin), "relativize": relativize})
         for zname, factory in FACTORIES:
             ok = run_sequence(ctx, env, zname, factory, relativize, mz, ops)
+            if ok and i % 2 == 0:
+                run_sequence(ctx, env, zname, factory, relativize, mz, ops, replacement=True)
+                if i % 6 == 0:
+                    run_sequence(ctx, env, zname, factory, relativize, mz, ops, abort_at=rng.randint(0, len(ops)), replacement=True)
             if ok and i % spec["abort_every"] == 0:
                 for a in range(len(ops) + 1):
                     run_sequence(ctx, env, zname, factory, relativize, mz, ops, abort_at=a)
